@@ -97,7 +97,16 @@ func c02RandomOp(s *Sess, u univ, rng *Rng) {
 		} else if len(u.rkeys) > 0 && rng.Intn(5) == 0 {
 			sk = u.rkeys[rng.Intn(len(u.rkeys))]
 		}
-		s.Copy(sb, sk, b, k)
+		var cm []KV
+		if rng.Intn(3) == 0 {
+			// a copy request with metadata of its own (onto itself: the way to change an object's metadata
+			// in place); it wins over what the source carries
+			cm = []KV{{"X-Amz-Meta-Tag", string(rune('x' + rng.Intn(3)))}}
+			if rng.Bool() {
+				cm = append(cm, KV{"Content-Type", "text/x-copy"})
+			}
+		}
+		s.CopyWith(sb, sk, b, k, cm)
 	default:
 		s.List(ListReq{Bucket: b, MaxKeys: -1})
 	}
